@@ -279,6 +279,11 @@ fn decorrelate_exists(
         // Couldn't build equi-join conditions
         return Ok(None);
     }
+    // The correlation predicates were REMOVED from the subquery; one that
+    // cannot be re-expressed on the join must not be silently dropped.
+    if join_on.len() != eq_predicates.len() {
+        return Ok(None);
+    }
 
     // Build join filter from non-equality predicates
     let join_filter = if non_eq_predicates.is_empty() {
@@ -289,6 +294,9 @@ fn decorrelate_exists(
             .filter_map(|pred| build_filter_expr(pred, outer, &join_right))
             .collect();
 
+        if filter_exprs.len() != non_eq_predicates.len() {
+            return Ok(None);
+        }
         if filter_exprs.is_empty() {
             None
         } else {
@@ -410,11 +418,55 @@ fn decorrelate_in_subquery(
     if join_on.is_empty() {
         return Ok(None);
     }
+    // Every correlation predicate was removed from the subquery. If one of
+    // them is not an equality, or names an inner column the subquery's
+    // projection no longer exposes (`b IN (SELECT c FROM u WHERE u.x = t.a)`
+    // projects only c), it has no join condition — decorrelating anyway
+    // evaluated the IN against the UNCORRELATED subquery.
+    if join_on.len() != correlation_predicates.len() {
+        return Ok(None);
+    }
 
     let join_type = if negated {
         JoinType::Anti
     } else {
         JoinType::Semi
+    };
+
+    // `x NOT IN (S)` is not "no equal element": a NULL x, or a NULL in S, makes
+    // it UNKNOWN and the row is dropped. An anti-join on `x = s` (NULL keys
+    // never match) keeps exactly those rows. So the IN equality moves out of
+    // the hash keys into a null-aware join filter, evaluated per correlated
+    // candidate: the row is removed when some element of ITS set is equal or
+    // either side is NULL. Without correlation keys there is nothing to hash
+    // on — the uncorrelated form stays with the subquery executor, which runs
+    // the subquery once and applies three-valued membership.
+    let (join_on, filter) = if negated {
+        let mut keys = join_on;
+        let (outer_x, inner_s) = match keys.pop() {
+            Some(pair) => pair,
+            None => return Ok(None),
+        };
+        if keys.is_empty() {
+            return Ok(None);
+        }
+        let is_null = |e: &Expr| Expr::UnaryExpr {
+            op: crate::planner::UnaryOp::IsNull,
+            expr: Box::new(e.clone()),
+        };
+        let or = |l: Expr, r: Expr| Expr::BinaryExpr {
+            left: Box::new(l),
+            op: BinaryOp::Or,
+            right: Box::new(r),
+        };
+        let eq = Expr::BinaryExpr {
+            left: Box::new(outer_x.clone()),
+            op: BinaryOp::Eq,
+            right: Box::new(inner_s.clone()),
+        };
+        (keys, Some(or(or(eq, is_null(&outer_x)), is_null(&inner_s))))
+    } else {
+        (join_on, None)
     };
 
     let schema = outer.schema();
@@ -424,7 +476,7 @@ fn decorrelate_in_subquery(
         right: Arc::new(decorrelated_subquery),
         join_type,
         on: join_on,
-        filter: None,
+        filter,
         schema,
     });
 
@@ -497,6 +549,9 @@ fn decorrelate_scalar_subquery(
     if join_on.is_empty() {
         return Ok(None);
     }
+    if join_on.len() != correlation_predicates.len() {
+        return Ok(None);
+    }
 
     // Get the updated schema from join_right (after ensure_grouped_by_correlation)
     let join_right_schema = join_right.schema();
@@ -563,8 +618,29 @@ fn decorrelate_scalar_subquery(
         schema: join_schema,
     });
 
-    // Create the new comparison predicate using the join result column
-    let scalar_col_expr = Expr::column(&result_col_name);
+    // Create the new comparison predicate using the join result column.
+    // An outer row without any inner row gets NULL from the LEFT join, which
+    // is right for MIN/MAX/SUM/AVG but not for COUNT: COUNT over no rows is
+    // 0. A bare COUNT is wrapped in COALESCE(.., 0); anything that merely
+    // CONTAINS a count (COUNT(*) + 1) is left to the row-by-row executor.
+    let scalar_name = scalar_field.name.to_ascii_uppercase();
+    let is_bare_count = scalar_name.starts_with("COUNT")
+        && scalar_name.ends_with(')')
+        && scalar_name.matches('(').count() == 1;
+    if scalar_name.contains("COUNT") && !is_bare_count {
+        return Ok(None);
+    }
+    let scalar_col_expr = if is_bare_count {
+        Expr::ScalarFunc {
+            func: crate::planner::ScalarFunction::Coalesce,
+            args: vec![
+                Expr::column(&result_col_name),
+                Expr::Literal(crate::planner::ScalarValue::Int64(0)),
+            ],
+        }
+    } else {
+        Expr::column(&result_col_name)
+    };
 
     let new_predicate = if subquery_on_left {
         Expr::BinaryExpr {
